@@ -118,16 +118,21 @@ class DescriptorTransaction(_TransactionBase):
         if descriptor_handle in self._mdib.descriptions.handle:
             msg = f'Cannot create descriptor {descriptor_handle}, it already exists in mdib!'
             raise ValueError(msg)
+        if state_container is not None and state_container.DescriptorHandle != descriptor_handle:
+            # check before anything is registered: a rejected call must not leave the descriptor in the transaction
+            msg = f'State {state_container.DescriptorHandle} does not match descriptor {descriptor_handle}!'
+            raise ValueError(msg)
         if adjust_descriptor_version:
             self._mdib.descriptions.set_version(descriptor_container)
         if descriptor_container.source_mds is None:
             self._mdib.xtra.set_source_mds(descriptor_container)
         self.descriptor_updates[descriptor_handle] = TransactionItem(None, descriptor_container)
         if state_container is not None:
-            if state_container.DescriptorHandle != descriptor_handle:
-                msg = f'State {state_container.DescriptorHandle} does not match descriptor {descriptor_handle}!'
-                raise ValueError(msg)
-            self.add_state(state_container)
+            try:
+                self.add_state(state_container)
+            except Exception:
+                del self.descriptor_updates[descriptor_handle]
+                raise
 
     def remove_descriptor(self, descriptor_handle: str):
         """Remove existing descriptor from mdib."""
